@@ -880,7 +880,14 @@ impl BuiltInFunction {
                     Primitive::Int(i32) => Primitive::BigInt(*i32 as i128),
                     Primitive::BigInt(i128) => Primitive::BigInt(*i128),
                     Primitive::Byte(u8) => Primitive::BigInt(*u8 as i128),
-                    Primitive::Float(f64) => Primitive::BigInt((*f64 as i64).into()),
+                    Primitive::Float(f64) => {
+                        let truncated = f64.trunc();
+                        // also rejects NaN and the infinities
+                        if !(truncated >= -(2f64.powi(127)) && truncated < 2f64.powi(127)) {
+                            bail!("`{f64}` cannot be made into a bigint")
+                        }
+                        Primitive::BigInt(truncated as i128)
+                    }
                     bad => unreachable!("{bad}"),
                 };
 
